@@ -1020,7 +1020,10 @@ impl SolarDay {
   pub fn get_solar_week(&self, start: usize) -> SolarWeek {
     let y: isize = self.get_year();
     let m: usize = self.get_month();
-    SolarWeek::from_ym(y, m, ((self.day + SolarDay::from_ymd(y, m, 1).get_week().next(-(start as isize)).get_index()) as f64 / 7.0).ceil() as usize - 1, start)
+    // 当月第几天（1582年10月15日是当月第5天，而不是第15天）
+    let first_day: SolarDay = SolarDay::from_ymd(y, m, 1);
+    let position: usize = self.subtract(first_day) as usize + 1;
+    SolarWeek::from_ym(y, m, ((position + first_day.get_week().next(-(start as isize)).get_index()) as f64 / 7.0).ceil() as usize - 1, start)
   }
 
   /// 节气
